@@ -41,9 +41,9 @@ def sourceHashes : List (String × String) :=
    ("branch", "b7a09978f3df34b2"),
    ("nop", "38a10715a79b43bd"),
    -- frame-slot level (Model/CfgSlots.lean): the slot-choosing switches of cfg.go and the closures
-   ("assignStmt: skip-assign switch", "9bc3f309155f7403"),
+   ("assignStmt: skip-assign switch", "477e8a7ce6cd24ad"),
    ("binaryExpr: findex switch", "48c75e35f0734e48"),
-   ("unaryExpr: findex switch", "20650871cc638137"),
+   ("unaryExpr: findex switch", "7c446f5014699902"),
    ("isArithmeticAction", "f57163de29913322"),
    ("run.go assign", "cba47e3270d77930"),
    ("run.go _return", "a27f80f01fc3a454"),
@@ -52,4 +52,35 @@ def sourceHashes : List (String × String) :=
    ("op.go add", "fa31f33a3ea5323a"),
    ("op.go quo", "88d5dd115428d689"),
    ("op.go lower", "d81ccb894c300fc6")]
+
+-- closure fragment (Model/Closures.lean): copy of the extractor output on the reviewed tree (/repo at 2e388d6)
+/-- fingerprints of the functions and clauses Model/Closures.lean transcribes -/
+def closureHashes : List (String × String) :=
+  [("newFrame", "da1db819d5067f56"),
+   ("frame.clone", "ccd71f62c6588b0a")] ++
+  [("getFrame", "48dc117bdbd1af33"),
+   ("getFunc", "e1777a5459c1a52e"),
+   ("assignFromCall", "68cf8ed8c8ebe68c"),
+   ("loopVarFor", "e36ed4f219e83478"),
+   ("loopVarForEnd", "fe93ec26819e3e17"),
+   ("loopVarKey", "850d1ef64799110f"),
+   ("loopVarVal", "fcbafb1e09580702")] ++
+  [("scope.lookup", "cc08c4552fe1b40f"),
+   ("scope.add", "441317678d25bfc3"),
+   ("scope.push", "0aefc5f773643548"),
+   ("scope.pushBloc", "6951928dd155310c"),
+   ("scope.pushFunc", "0db98350fb383035"),
+   ("scope.pop", "8cb627335be1a171")] ++
+  [("run.go assign: define branch", "3fc491eab953d151"),
+   ("case funcLit#0", "f555f72b975797df"),
+   ("case funcLit#1", "ff3c817d9d2647b4"),
+   ("case blockStmt: forStmt7 loop variable", "bab8f2008eed8949"),
+   ("case assignStmt, defineStmt: define allocates a slot", "6ceeedf57eb99d5a")]
+/-- the choices of the source Model/Closures.lean is parametrised by (`Mech`) -/
+def mechFacts : List (String × String) :=
+  [("define allocates a fresh value", "true"),
+   ("getFunc clones the frame", "true"),
+   ("loopVarFor allocates a fresh value", "true"),
+   ("identExpr takes level and index from scope.lookup", "true"),
+   ("loopVarForEnd copies back", "true")]
 end YaegiVerif.Expected.C01
